@@ -1,5 +1,6 @@
 import CheetahModel.Proofs.Tables
 import CheetahModel.Proofs.TextProofs
+import CheetahModel.Proofs.NxProofs
 /-!
 # C13 — imported lattices mean what the lattice file says
 
@@ -84,6 +85,23 @@ theorem rpn_is_infix (a b : Line) (o : Char) (ha : ' ' ∉ a) (hb : ' ' ∉ b)
       rpnInfix (a ++ ' ' :: (b ++ ' ' :: [o])) = some (a ++ ' ' :: ([o] ++ ' ' :: b)) :=
   ⟨rpn_valid a b o ha hb ho hs,
    rpn_reorder a b [o] ha hb (by rcases ho with rfl | rfl | rfl | rfl <;> decide) hs⟩
+
+/-- **NX tables.**  For every table the importer accepts (rows already translated and sorted; a row is
+`(s_position, length)`), the line produced by the drift filling places every element's centre at its tabulated
+position — measured from the entrance of the first element — and its total length runs from the entrance of the first
+to the exit of the last element. -/
+theorem nx_centres_at_tabulated_positions (r : ℝ × ℝ) (rest : List (ℝ × ℝ)) (out : List (Bool × ℝ))
+    (h : Nx.fill (r :: rest) = some out) :
+    Nx.centres (r.1 - r.2 / 2) out = (r :: rest).map (·.1) ∧
+    Nx.total out = (match (r :: rest).getLast? with | none => 0 | some l => l.1 + l.2 / 2) - (r.1 - r.2 / 2) :=
+  Nx.fill_centres r rest out h
+
+/-- … and it accepts exactly the tables without overlapping neighbours -/
+theorem nx_accepts_iff_no_overlap (r : ℝ × ℝ) (rest : List (ℝ × ℝ)) :
+    (Nx.fill (r :: rest)).isSome = true ↔
+      List.IsChain (fun a b : ℝ × ℝ => 0 ≤ b.1 - a.1 - a.2 / 2 - b.2 / 2) (r :: rest) := by
+  simp only [Nx.fill, Option.isSome_map]
+  exact Nx.fillGo_isSome rest r
 
 /-! non-vacuity: a three-line statement with both marks -/
 example : mergeAll ["q1: quad, &".toList, "l=1,".toList, "k1=2".toList, "d: drift".toList]
